@@ -20,7 +20,7 @@ C(r) == Coef(r.ip, r.fd, r.fp)
 K(r) == Key(r.t, r.lead)
 SeqSet(s) == { s[i] : i \in 1..Len(s) }
 
-CfgOf(r) == [spc |-> r.spc, eol |-> r.eol, gmode |-> r.gmode, ctoks |-> r.ctoks, msfk |-> r.msfk, dq |-> r.dq,
+CfgOf(r) == [chk |-> r.chk, spc |-> r.spc, eol |-> r.eol, gmode |-> r.gmode, ctoks |-> r.ctoks, msfk |-> r.msfk, dq |-> r.dq,
              argname |-> r.argname, argref |-> r.argref,
              argparam |-> IF r.argparam.some THEN [some |-> TRUE, v |-> D(r.argparam.v)] ELSE NoArgParam]
 
@@ -80,7 +80,7 @@ LineClause(o, d) ==
 
 \* a reaction read back from its printed text: same active species and coefficients, nothing
 \* inactive, the parameter to the printed precision (three significant digits)
-RTLineClause(o, d, withparam) ==
+RTLineClause(o, d, withparam, nd) ==
     IF ~MapEq(o.reac, d.reac) THEN "reac"
     ELSE IF ~MapEq(o.prod, d.prod) THEN "prod"
     ELSE IF o.ireac # <<>> THEN "ireac"
@@ -88,7 +88,9 @@ RTLineClause(o, d, withparam) ==
     ELSE IF o.param.some # (withparam /\ d.param.some) THEN "param"
     ELSE IF o.param.some /\ o.param.kind # d.param.kind THEN "param"
     ELSE IF o.param.some /\ d.param.kind = "sym" /\ o.param.name # d.param.name THEN "param"
-    ELSE IF o.param.some /\ d.param.kind = "num" /\ ~WithinHalfUlp(D(o.param.v), d.param.v, 3) THEN "param-prec"
+    ELSE IF o.param.some /\ d.param.kind = "num" /\ d.param.v.digs = <<>> /\ ~DEq(D(o.param.v), d.param.v) THEN "param-prec"
+    ELSE IF o.param.some /\ d.param.kind = "num" /\ d.param.v.digs # <<>>
+            /\ ~WithinHalfUlp(D(o.param.v), d.param.v, nd) THEN "param-prec"
     ELSE ""
 
 RECURSIVE FirstLineClause(_, _)
@@ -108,21 +110,26 @@ FirstEditClause(ls, i) ==
     ELSE LET c == LineClause(ls[i], EditedDen(lines[i].den)) IN
          IF c # "" THEN "line" \o ToString(i) \o ":" \o c ELSE FirstEditClause(ls, i + 1)
 RECURSIVE FirstRTClause(_, _, _)
-FirstRTClause(ls, i, wp) ==
+FirstRTClause(ls, i, o) ==
     IF i > Len(lines) THEN ""
-    ELSE LET c == RTLineClause(ls[i], lines[i].den, wp) IN
-         IF c # "" THEN "line" \o ToString(i) \o ":" \o c ELSE FirstRTClause(ls, i + 1, wp)
+    ELSE LET c == RTLineClause(ls[i], lines[i].den, o.wp, o.nd) IN
+         IF c # "" THEN "line" \o ToString(i) \o ":" \o c ELSE FirstRTClause(ls, i + 1, o)
+RECURSIVE FirstReassignClause(_, _)
+FirstReassignClause(ls, i) ==
+    IF i > Len(lines) THEN ""
+    ELSE LET c == RTLineClause(ls[i], OverDen(lines[i].den), TRUE, 3) IN
+         IF c # "" THEN "line" \o ToString(i) \o ":" \o c ELSE FirstReassignClause(ls, i + 1)
 
 AllExact(o) == \A i \in 1..Len(lines) : ExactUnder(lines[i].den, o)
 RECURSIVE FirstRTsClause(_, _)
 FirstRTsClause(rts, j) ==
     IF j > Len(rts) THEN ""
     ELSE LET r == rts[j]
-             o == Opt(r.wp, r.wn)
+             o == OptN(r.wp, r.wn, r.nd)
              c == IF ~Applicable(o) THEN "option"
                   ELSE IF r.raised THEN "rejected"
                   ELSE IF Len(r.lines) # Len(lines) THEN "nlines"
-                  ELSE LET lc == FirstRTClause(r.lines, 1, r.wp) IN
+                  ELSE LET lc == FirstRTClause(r.lines, 1, o) IN
                        IF lc # "" THEN lc
                        ELSE IF AllExact(o) /\ ~r.eq THEN "not-equal"
                        ELSE ""
@@ -144,6 +151,8 @@ ObsClause(o) ==
          ELSE IF ~o.copy_indep THEN "copy-aliased"
          ELSE IF FirstLineClause(o.after_lines, 1) # "" THEN "copy-alias:" \o FirstLineClause(o.after_lines, 1)
          ELSE IF FirstOverClause(o.copy_over_lines, 1) # "" THEN "copy-over:" \o FirstOverClause(o.copy_over_lines, 1)
+         ELSE IF ~o.twin_eq THEN "twin-neq"
+         ELSE IF ~o.twin_indep THEN "twin-aliased"
          ELSE IF o.edit.low # EditLow \/ o.edit.high # EditHigh THEN "copy-edit-keys"
          ELSE IF Len(o.edit_lines) # Len(lines) THEN "copy-edit-nlines"
          ELSE IF ~o.edit_copy_eq THEN "copy-edit-neq"
@@ -152,8 +161,13 @@ ObsClause(o) ==
          ELSE LET cc == FirstLineClause(o.copy_lines, 1) IN
               IF cc # "" THEN "copy:" \o cc
               ELSE IF stage = "final"
-                   THEN (IF \E q \in SeqSet(OptSeq) : ~\E j \in 1..Len(o.rts) : Opt(o.rts[j].wp, o.rts[j].wn) = q
-                         THEN "no-rt" ELSE FirstRTsClause(o.rts, 1))
+                   THEN (IF \E q \in SeqSet(OptSeq) : ~\E j \in 1..Len(o.rts) : OptN(o.rts[j].wp, o.rts[j].wn, o.rts[j].nd) = q
+                         THEN "no-rt"
+                         ELSE IF FirstRTsClause(o.rts, 1) # "" THEN FirstRTsClause(o.rts, 1)
+                         ELSE IF o.reassign.raised THEN "reassign:rejected"
+                         ELSE IF Len(o.reassign.lines) # Len(lines) THEN "reassign:nlines"
+                         ELSE IF FirstReassignClause(o.reassign.lines, 1) # "" THEN "reassign:" \o FirstReassignClause(o.reassign.lines, 1)
+                         ELSE "")
               ELSE ""
 
 ResultOK(e) == Terminal /\ ObsClause(e.obs) = ""
